@@ -116,6 +116,7 @@ impl Prop for C02P {
                 for (i, _) in windows(c, r).iter().enumerate() {
                     v.push(format!("NV {}x{} {}", c, r, i));
                     v.push(format!("NM {}x{} {}", c, r, i));
+                    v.push(format!("MV {}x{} {}", c, r, i));
                 }
             }
         }
@@ -145,7 +146,7 @@ impl Prop for C02P {
         }
     }
     fn rule(&self) -> String {
-        "for every receiver (owned arrays of every shape; TooDeeView and TooDeeViewMut over every window of every parent; views of views; views built directly over a slice, exact or with surplus cells) and every coordinate in (0..=dim+1)^2 plus huge values \
+        "for every receiver (owned arrays of every shape; TooDeeView and TooDeeViewMut over every window of every parent; views of views (view of view, view_mut of view_mut, view of view_mut); views built directly over a slice, exact or with surplus cells) and every coordinate in (0..=dim+1)^2 plus huge values \
          (the fixed set 2^31, 2^32, 2^63, usize::MAX/2, MAX/2+1, MAX-1, MAX and every out-of-range index whose product with the receiver's stride wraps back into the column slice): \
          in range => x[(c,r)], x[r][c], col(c)[r], their mutable forms (IndexMut, col_mut(c)[r] through Index and IndexMut) and the four unchecked getters all yield the ADDRESS of the expected root cell; \
          out of range => every checked accessor panics and the root is unchanged. A case is (receiver, coordinate) with all accessors probed; non-trivial = in-range coordinate; distinct by (receiver, coordinate)."
@@ -203,6 +204,12 @@ fn run_recv(kind: &str, pc: usize, pr: usize, w1: Option<Win>, w2: Option<Win>, 
                     "NV" => {
                         let (a, b) = (w1.unwrap(), w2.unwrap());
                         let v1 = rt.view(a.0, a.1);
+                        probes.extend(probe_ro(&v1.view(b.0, b.1), x, y, in_range));
+                    }
+                    "MV" => {
+                        // a read-only view taken from a mutable view
+                        let (a, b) = (w1.unwrap(), w2.unwrap());
+                        let v1 = rt.view_mut(a.0, a.1);
                         probes.extend(probe_ro(&v1.view(b.0, b.1), x, y, in_range));
                     }
                     "NM" => {
